@@ -17,7 +17,7 @@ CLAUSES = ("no_spin_at_frozen_clock", "no_event_into_the_past")
 
 def _only_c07(fn):
     def wrapped(sym, tier):
-        res = fn(sym, tier)
+        res = fn(sym, "quick")      # the scenarios keep their quick-tier bounds; the thorough tier adds scenario sets
         out = Result()
         out.fail = [f for f in res.fail if (f[0] if not isinstance(f, str) else f).startswith(CLAUSES)]
         out.wit = set(res.wit)
@@ -48,9 +48,10 @@ _SOURCES = [
 HARNESSES = []
 for _mod, _name, _what in _SOURCES:
     _h = _pick(_mod, _name)
-    HARNESSES.append(H(name="c07_" + _name[4:], fn=_only_c07(_h.fn), shape="S", cubes=_h.cubes, budget=_h.budget,
+    HARNESSES.append(H(name="c07_" + _name[4:], fn=_only_c07(_h.fn), shape="S", cubes=(lambda tier, _c=_h.cubes: _c("quick")),
+                       budget=(lambda tier, _b=_h.budget: _b("quick")),
                        per_path_timeout=_h.per_path_timeout, require=lambda tier: [], classify=None,
-                       functions=list(_h.functions), bounds=_h.bounds,
+                       functions=list(_h.functions), bounds=(lambda tier, _bd=_h.bounds: _bd("quick")),
                        outside=[], assumptions=list(_h.assumptions),
                        tiers=("thorough",) if _name in ("c02_script", "c17_chain") else ("quick", "thorough")))
 
